@@ -543,6 +543,12 @@ func main() {
 		ordered(src(ur), "!r.discovery.IsCoordinator()", "return", "r.fillRoutingTable()", "r.updateRoutingTableOnCluster()", "r.processLeftOverDataReports(reports)") &&
 		strings.Contains(src(vr), "coordinator.CompareByID(myCoordinator)") &&
 		strings.Contains(src(gc), "return members[0]") && strings.Contains(src(gm), "members[i].Birthdate < members[j].Birthdate")
+	loGo := parse("internal/cluster/routingtable/left_over_data.go")
+	plo := funcDecl(loGo, "RoutingTable", "processLeftOverDataReports")
+	repush := ur != nil && plo != nil &&
+		ordered(src(ur), "for attempt := 0; attempt < 2; attempt++", "r.fillRoutingTable()", "r.updateRoutingTableOnCluster()", "if !r.processLeftOverDataReports(reports)", "return") &&
+		ordered(src(plo), "var changed bool", "newOwners = append([]discovery.Member{member}, newOwners...)", "part.SetOwners(newOwners)", "changed = true", "return changed")
+	addBool("leftover_report_is_pushed_again", repush, "updateRouting computes and pushes the table once more when processLeftOverDataReports added a member to an owners list (it reports exactly that)")
 	addBool("only_oldest_member_computes_and_receivers_verify_sender", coord, "updateRouting runs on the coordinator only (oldest member by birthdate), receivers reject a table whose sender is not their coordinator")
 
 	// ---- structural facts: critical sections of writes, steps of a read (C01)
